@@ -157,6 +157,7 @@ Definition run (req : sexp) : sexp :=
               Some (s_bool (can_signb (fnenv_lookup e) x pn kn)))
   | SList [SNum 7; mm] => or_bad (odo x <- as_model mm ;; Some (s_bool (saneb x)))
   | SList [SNum 8; a] => or_bad (odo x <- as_ast a ;; Some (SList [s_bool (static_ok x); s_bool (no_rule_sign_cycle x)]))
+  | SList [SNum 10; a] => or_bad (odo x <- as_ast a ;; Some (s_res s_model (compile_pool x)))
   | SList [SNum 9; mm] => or_bad (odo x <- as_model mm ;; Some (s_bool (sign_acyclicb x)))
   (* batch forms: one answer per name / pair *)
   | SList [SNum 13; mm; fe; fuel; nms] =>
